@@ -55,7 +55,8 @@ def main(argv):
         except Exception as e:
             broken.append(dict(what="translator", detail="pregen failed: %r" % (e,)))
     # 2. build
-    ok, log = lean.build(["PynProps." + pid, "pyndriver"])
+    extra = list(getattr(mod, "EXTRA_MODULES", []))      # further theorem files of the property (e.g. the Mathlib-using half)
+    ok, log = lean.build(["PynProps." + pid] + ["PynProps." + m for m in extra] + ["pyndriver"])
     if not ok:
         # distinguish: does the model/driver still build?
         ok2, _ = lean.build(["pyndriver"])
@@ -63,7 +64,7 @@ def main(argv):
     # 3. audit
     axioms, problems = ({}, [])
     if ok:
-        axioms, problems = lean.audit(pid)
+        axioms, problems = lean.audit(pid, extra)
         for p in problems:
             broken.append(dict(what="axiom audit", detail=p))
     bad = lean.grep_forbidden()
@@ -99,7 +100,7 @@ def main(argv):
     corr_f = [f for f in ctx.failures if f["kind"] == "corr"]
     # leanchecker in thorough
     if tier == "thorough" and ok:
-        rc, out = lean.lake(["env", "leanchecker", "PynProps." + pid], timeout=3000)
+        rc, out = lean.lake(["env", "leanchecker", "PynProps." + pid] + ["PynProps." + m for m in extra], timeout=3000)
         if rc != 0:
             broken.append(dict(what="leanchecker", detail=out[-1000:]))
 
